@@ -53,3 +53,31 @@ Print Assumptions C09_wrapped.
 Theorem C09_all_registers : forall id, 0 <= id < 65536 -> c12_ok id = true.
 Proof. exact c12_all_products. Qed.
 Print Assumptions C09_all_registers.
+
+(* IEEE-754.  The float64 the number reader returns — float64(raw)/float64(factor) + offset,
+   every operation rounding to nearest even (Flocq binary64; Api/Float.v is what the
+   correspondence check compares bit for bit with the implementation's result) — is finite
+   and is the correctly rounded evaluation of raw/factor + offset: *)
+From Coq Require Import Reals.
+From Flocq Require Import Core IEEE754.BinarySingleNaN IEEE754.Binary IEEE754.Bits.
+From GV Require Import Api.Float Api.FloatFacts Api.FloatTables.
+
+(* for any register with a non-zero factor and any raw value a 64-bit read can deliver *)
+Theorem C09_number_f64 : forall r raw,
+  (Z.abs raw <= 2 ^ 64)%Z -> (1 <= Z.abs (r_factor r) <= 2 ^ 64)%Z ->
+  (Z.abs (r_off_num r) <= 2 ^ 64)%Z -> (1 <= Z.abs (r_off_den r) <= 2 ^ 64)%Z ->
+  is_finite 53 1024 (number_value_f64 r raw) = true /\
+  B2R 53 1024 (number_value_f64 r raw) =
+    RN (RN (RN (IZR raw) / RN (IZR (r_factor r))) + RN (RN (IZR (r_off_num r)) / RN (IZR (r_off_den r)))).
+Proof. exact number_value_f64_correct. Qed.
+Print Assumptions C09_number_f64.
+
+(* for every number register of every product's list (all 65536 ids) and every raw value
+   below 2^53 the integer conversions are exact: RN (RN (raw / factor) + offset) *)
+Theorem C09_number_f64_small : forall id r raw,
+  In r (l_numbers (snd (obs_reglist id))) -> (Z.abs raw < 2 ^ 53)%Z ->
+  is_finite 53 1024 (number_value_f64 r raw) = true /\
+  B2R 53 1024 (number_value_f64 r raw) =
+    RN (RN (IZR raw / IZR (r_factor r)) + RN (IZR (r_off_num r) / IZR (r_off_den r))).
+Proof. exact number_value_f64_tables. Qed.
+Print Assumptions C09_number_f64_small.
